@@ -1,3 +1,10 @@
+//! C33 harness (copied from sim.rs and extended): RECORDING listeners at every level.
+//! Changes w.r.t. sim.rs:
+//!   P / T / PUB / SUB / W / R accept  l=<0|1>  (install a recording listener)  and  m=<K,K,...>  (listener
+//!   mask; kinds IT ODM RDM OIQ RIQ SL SR DOR DA LL LC PM SM; `-` = empty);  T2 = topic of a second type
+//!   (same type NAME, different structure) to raise InconsistentTopic
+//!   ev            print and clear the recorded listener calls: `ev <label>:<kind>:<count> ...` (sorted);
+//!                 labels P<i> PUB<i> SUB<i> W<i> R<i> T<i> (creation index of the entity owning the listener)
 //! Scenario interpreter over the simulated stack (see vh::sim).  One scenario per
 //! stdin line, ops separated by ';'.  Because the factory owns a process-wide static
 //! channel, every scenario runs in a fresh child process (`sim --one`).
@@ -39,7 +46,15 @@ use dust_dds::infrastructure::sample_info::{
 use dust_dds::infrastructure::time::{Duration, DurationKind, Time};
 use dust_dds::infrastructure::type_support::DdsType;
 use dust_dds::rtps_messages::overall_structure::{RtpsMessageRead, RtpsSubmessageReadKind};
-use std::collections::HashMap;
+use dust_dds::dds_async::data_reader_listener::DataReaderListener;
+use dust_dds::dds_async::data_writer_listener::DataWriterListener;
+use dust_dds::dds_async::domain_participant_listener::DomainParticipantListener;
+use dust_dds::dds_async::publisher_listener::PublisherListener;
+use dust_dds::dds_async::subscriber_listener::SubscriberListener;
+use dust_dds::dds_async::topic_listener::TopicListener;
+use dust_dds::infrastructure::status::*;
+use std::collections::{BTreeMap, HashMap};
+use std::sync::{Arc, Mutex};
 use std::io::{BufRead, Write};
 use vh::sim::{Packet, Sim, SimRuntime, SimTransport};
 
@@ -48,6 +63,107 @@ struct KeyedData {
     #[dust_dds(key)]
     id: u8,
     value: Vec<u8>,
+}
+
+#[derive(DdsType, Debug, Clone, PartialEq)]
+struct OtherData {
+    #[dust_dds(key)]
+    id: u32,
+    a: i64,
+    b: String,
+}
+
+type Log = Arc<Mutex<Vec<(String, &'static str)>>>;
+/// listener that records (owner label, callback) into the shared log
+#[derive(Clone)]
+struct Rec {
+    log: Log,
+    label: String,
+}
+impl Rec {
+    fn push(&self, k: &'static str) {
+        self.log.lock().unwrap().push((self.label.clone(), k));
+    }
+}
+impl<Foo: 'static> DataReaderListener<Foo> for Rec {
+    async fn on_data_available(&mut self, _r: DataReaderAsync<Foo>) { self.push("DA") }
+    async fn on_sample_rejected(&mut self, _r: DataReaderAsync<Foo>, _s: SampleRejectedStatus) { self.push("SR") }
+    async fn on_liveliness_changed(&mut self, _r: DataReaderAsync<Foo>, _s: LivelinessChangedStatus) { self.push("LC") }
+    async fn on_requested_deadline_missed(&mut self, _r: DataReaderAsync<Foo>, _s: RequestedDeadlineMissedStatus) { self.push("RDM") }
+    async fn on_requested_incompatible_qos(&mut self, _r: DataReaderAsync<Foo>, _s: RequestedIncompatibleQosStatus) { self.push("RIQ") }
+    async fn on_subscription_matched(&mut self, _r: DataReaderAsync<Foo>, _s: SubscriptionMatchedStatus) { self.push("SM") }
+    async fn on_sample_lost(&mut self, _r: DataReaderAsync<Foo>, _s: SampleLostStatus) { self.push("SL") }
+}
+impl<Foo: 'static> DataWriterListener<Foo> for Rec {
+    async fn on_liveliness_lost(&mut self, _w: DataWriterAsync<Foo>, _s: LivelinessLostStatus) { self.push("LL") }
+    async fn on_offered_deadline_missed(&mut self, _w: DataWriterAsync<Foo>, _s: OfferedDeadlineMissedStatus) { self.push("ODM") }
+    async fn on_offered_incompatible_qos(&mut self, _w: DataWriterAsync<Foo>, _s: OfferedIncompatibleQosStatus) { self.push("OIQ") }
+    async fn on_publication_matched(&mut self, _w: DataWriterAsync<Foo>, _s: PublicationMatchedStatus) { self.push("PM") }
+}
+impl SubscriberListener for Rec {
+    async fn on_data_on_readers(&mut self, _s: SubscriberAsync) { self.push("DOR") }
+    async fn on_data_available(&mut self, _r: DataReaderAsync<()>) { self.push("DA") }
+    async fn on_sample_rejected(&mut self, _r: DataReaderAsync<()>, _s: SampleRejectedStatus) { self.push("SR") }
+    async fn on_liveliness_changed(&mut self, _r: DataReaderAsync<()>, _s: LivelinessChangedStatus) { self.push("LC") }
+    async fn on_requested_deadline_missed(&mut self, _r: DataReaderAsync<()>, _s: RequestedDeadlineMissedStatus) { self.push("RDM") }
+    async fn on_requested_incompatible_qos(&mut self, _r: DataReaderAsync<()>, _s: RequestedIncompatibleQosStatus) { self.push("RIQ") }
+    async fn on_subscription_matched(&mut self, _r: DataReaderAsync<()>, _s: SubscriptionMatchedStatus) { self.push("SM") }
+    async fn on_sample_lost(&mut self, _r: DataReaderAsync<()>, _s: SampleLostStatus) { self.push("SL") }
+}
+impl PublisherListener for Rec {
+    async fn on_liveliness_lost(&mut self, _w: DataWriterAsync<()>, _s: LivelinessLostStatus) { self.push("LL") }
+    async fn on_offered_deadline_missed(&mut self, _w: DataWriterAsync<()>, _s: OfferedDeadlineMissedStatus) { self.push("ODM") }
+    async fn on_offered_incompatible_qos(&mut self, _w: DataWriterAsync<()>, _s: OfferedIncompatibleQosStatus) { self.push("OIQ") }
+    async fn on_publication_matched(&mut self, _w: DataWriterAsync<()>, _s: PublicationMatchedStatus) { self.push("PM") }
+}
+impl TopicListener for Rec {
+    async fn on_inconsistent_topic(&mut self, _t: TopicAsync, _s: InconsistentTopicStatus) { self.push("IT") }
+}
+impl DomainParticipantListener for Rec {
+    async fn on_inconsistent_topic(&mut self, _t: TopicAsync, _s: InconsistentTopicStatus) { self.push("IT") }
+    async fn on_liveliness_lost(&mut self, _w: DataWriterAsync<()>, _s: LivelinessLostStatus) { self.push("LL") }
+    async fn on_offered_deadline_missed(&mut self, _w: DataWriterAsync<()>, _s: OfferedDeadlineMissedStatus) { self.push("ODM") }
+    async fn on_offered_incompatible_qos(&mut self, _w: DataWriterAsync<()>, _s: OfferedIncompatibleQosStatus) { self.push("OIQ") }
+    async fn on_sample_lost(&mut self, _r: DataReaderAsync<()>, _s: SampleLostStatus) { self.push("SL") }
+    async fn on_data_available(&mut self, _r: DataReaderAsync<()>) { self.push("DA") }
+    async fn on_sample_rejected(&mut self, _r: DataReaderAsync<()>, _s: SampleRejectedStatus) { self.push("SR") }
+    async fn on_liveliness_changed(&mut self, _r: DataReaderAsync<()>, _s: LivelinessChangedStatus) { self.push("LC") }
+    async fn on_requested_deadline_missed(&mut self, _r: DataReaderAsync<()>, _s: RequestedDeadlineMissedStatus) { self.push("RDM") }
+    async fn on_requested_incompatible_qos(&mut self, _r: DataReaderAsync<()>, _s: RequestedIncompatibleQosStatus) { self.push("RIQ") }
+    async fn on_publication_matched(&mut self, _w: DataWriterAsync<()>, _s: PublicationMatchedStatus) { self.push("PM") }
+    async fn on_subscription_matched(&mut self, _r: DataReaderAsync<()>, _s: SubscriptionMatchedStatus) { self.push("SM") }
+}
+fn kind_of(k: &str) -> Option<StatusKind> {
+    Some(match k {
+        "IT" => StatusKind::InconsistentTopic,
+        "ODM" => StatusKind::OfferedDeadlineMissed,
+        "RDM" => StatusKind::RequestedDeadlineMissed,
+        "OIQ" => StatusKind::OfferedIncompatibleQos,
+        "RIQ" => StatusKind::RequestedIncompatibleQos,
+        "SL" => StatusKind::SampleLost,
+        "SR" => StatusKind::SampleRejected,
+        "DOR" => StatusKind::DataOnReaders,
+        "DA" => StatusKind::DataAvailable,
+        "LL" => StatusKind::LivelinessLost,
+        "LC" => StatusKind::LivelinessChanged,
+        "PM" => StatusKind::PublicationMatched,
+        "SM" => StatusKind::SubscriptionMatched,
+        _ => return None,
+    })
+}
+/// (install listener?, mask) from the `l=` / `m=` tokens
+fn lm(tokens: &[&str]) -> (bool, Vec<StatusKind>) {
+    let mut l = false;
+    let mut m = vec![];
+    for t in tokens {
+        if let Some(v) = t.strip_prefix("l=") {
+            l = v == "1";
+        }
+        if let Some(v) = t.strip_prefix("m=") {
+            m = v.split(',').filter_map(kind_of).collect();
+        }
+    }
+    (l, m)
 }
 
 fn err_code(e: &DdsError) -> i32 {
@@ -156,6 +272,7 @@ struct World {
     readers: Vec<DataReaderAsync<KeyedData>>,
     rules: Vec<Rule>,
     sent_mark: usize,
+    log: Log,
 }
 
 const BUDGET: i64 = 2_000_000_000;
@@ -214,7 +331,9 @@ impl World {
             }
             "P" => {
                 let f = &self.factory;
-                let r = self.sim.run(f.create_participant(n(1) as i32, QosKind::Default, None::<()>, &[]), BUDGET);
+                let (l, m) = lm(&t[1..]);
+                let rec = if l { Some(Rec { log: self.log.clone(), label: format!("P{}", self.parts.len()) }) } else { None };
+                let r = self.sim.run(f.create_participant(n(1) as i32, QosKind::Default, rec, &m), BUDGET);
                 self.sim.settle();
                 match r {
                     Ok(Ok(p)) => {
@@ -225,10 +344,16 @@ impl World {
                     Err(_) => "P STUCK".into(),
                 }
             }
-            "T" => {
+            "T" | "T2" => {
                 let p = &self.parts[u(1)];
                 let name = t.get(2).copied().unwrap_or("topic");
-                let r = self.sim.run(p.create_topic::<KeyedData>(name, "KeyedData", QosKind::Default, None::<()>, &[]), BUDGET);
+                let (l, m) = lm(&t[1..]);
+                let rec = if l { Some(Rec { log: self.log.clone(), label: format!("T{}", self.topics.len()) }) } else { None };
+                let r = if t[0] == "T" {
+                    self.sim.run(p.create_topic::<KeyedData>(name, "KeyedData", QosKind::Default, rec, &m), BUDGET)
+                } else {
+                    self.sim.run(p.create_topic::<OtherData>(name, "KeyedData", QosKind::Default, rec, &m), BUDGET)
+                };
                 self.sim.settle();
                 match r {
                     Ok(Ok(x)) => {
@@ -241,7 +366,9 @@ impl World {
             }
             "PUB" => {
                 let p = &self.parts[u(1)];
-                let r = self.sim.run(p.create_publisher(QosKind::Default, None::<()>, &[]), BUDGET);
+                let (l, m) = lm(&t[1..]);
+                let rec = if l { Some(Rec { log: self.log.clone(), label: format!("PUB{}", self.pubs.len()) }) } else { None };
+                let r = self.sim.run(p.create_publisher(QosKind::Default, rec, &m), BUDGET);
                 self.sim.settle();
                 match r {
                     Ok(Ok(x)) => {
@@ -254,7 +381,9 @@ impl World {
             }
             "SUB" => {
                 let p = &self.parts[u(1)];
-                let r = self.sim.run(p.create_subscriber(QosKind::Default, None::<()>, &[]), BUDGET);
+                let (l, m) = lm(&t[1..]);
+                let rec = if l { Some(Rec { log: self.log.clone(), label: format!("SUB{}", self.subs.len()) }) } else { None };
+                let r = self.sim.run(p.create_subscriber(QosKind::Default, rec, &m), BUDGET);
                 self.sim.settle();
                 match r {
                     Ok(Ok(x)) => {
@@ -282,7 +411,9 @@ impl World {
                 q.ownership_strength.value = g("str", 0) as i32;
                 let pb = &self.pubs[u(1)];
                 let tp = &self.topics[u(2)];
-                let r = self.sim.run(pb.create_datawriter::<KeyedData>(tp, QosKind::Specific(q), None::<()>, &[]), BUDGET);
+                let (l, m) = lm(&t[1..]);
+                let rec = if l { Some(Rec { log: self.log.clone(), label: format!("W{}", self.writers.len()) }) } else { None };
+                let r = self.sim.run(pb.create_datawriter::<KeyedData>(tp, QosKind::Specific(q), rec, &m), BUDGET);
                 self.sim.settle();
                 match r {
                     Ok(Ok(x)) => {
@@ -309,7 +440,9 @@ impl World {
                 q.destination_order.kind = if g("ord", 0) == 1 { DestinationOrderQosPolicyKind::BySourceTimestamp } else { DestinationOrderQosPolicyKind::ByReceptionTimestamp };
                 let sb = &self.subs[u(1)];
                 let tp = &self.topics[u(2)];
-                let r = self.sim.run(sb.create_datareader::<KeyedData>(tp, QosKind::Specific(q), None::<()>, &[]), BUDGET);
+                let (l, m) = lm(&t[1..]);
+                let rec = if l { Some(Rec { log: self.log.clone(), label: format!("R{}", self.readers.len()) }) } else { None };
+                let r = self.sim.run(sb.create_datareader::<KeyedData>(tp, QosKind::Specific(q), rec, &m), BUDGET);
                 self.sim.settle();
                 match r {
                     Ok(Ok(x)) => {
@@ -367,6 +500,18 @@ impl World {
                     Ok(Err(e)) => format!("{} E{}", t[0], err_code(&e)),
                     Err(_) => format!("{} STUCK", t[0]),
                 }
+            }
+            "ev" => {
+                self.sim.settle();
+                let mut counts: BTreeMap<(String, &'static str), usize> = BTreeMap::new();
+                for e in self.log.lock().unwrap().drain(..) {
+                    *counts.entry(e).or_insert(0) += 1;
+                }
+                let mut s = String::from("ev");
+                for ((l, k), c) in counts {
+                    s += &format!(" {}:{}:{}", l, k, c);
+                }
+                s
             }
             "adv" => {
                 self.sim.advance(n(1));
@@ -527,6 +672,7 @@ fn run_scenario(line: &str) -> String {
         readers: vec![],
         rules: vec![],
         sent_mark: 0,
+        log: Arc::new(Mutex::new(vec![])),
     };
     let mut out = vec![];
     for op in line.split(';') {
